@@ -465,7 +465,11 @@ class CFG:
             for node, _ in t:
                 node.meta["assert"] = s
             f = self._expr(s.msg, f)
-            n = self._emit("assert-fail", s, f, frozenset({"AssertionError"}))
+            # An assertion states what the author holds to be impossible; `python -O` removes it.  Path rules therefore do not
+            # follow its failure (a dead end here): the library's behaviour may not depend on it.  The node stays, so rules that
+            # are *about* an assertion (re-entrance guards, C09.6 preconditions, decided-false assertions) can find it.
+            n = self._emit("assert-fail", s, f, frozenset())
+            n.raises = frozenset({"AssertionError"})
             n.meta["assert"] = s
             return t
         if isinstance(s, ast.If) and getattr(s, "_inline", None):
